@@ -91,7 +91,14 @@ static void apply(const char *op, long a, long b)
 	else if (!strcmp(op, "Extract")) { r = idx(list_extract(&lists[a - 1])); kill_iter(a); na = 1; }
 	else if (!strcmp(op, "Remove")) { r = list_remove(&lists[a - 1], node(b)); kill_iter(a); }
 	else if (!strcmp(op, "Contains")) { r = list_contains(&lists[a - 1], node(b), NULL); }
-	else if (!strcmp(op, "ContainsIter")) { r = list_contains(&lists[a - 1], node(b), &iter); itl = a; }
+	else if (!strcmp(op, "ContainsIter")) {
+		/* a caller that wants only the iterator position may ignore the answer: on alternate calls the result is
+		 * discarded (and asked for again, without an iterator, for the log) */
+		static unsigned alt;
+		if (alt++ & 1) { (void) list_contains(&lists[a - 1], node(b), &iter); r = list_contains(&lists[a - 1], node(b), NULL); }
+		else r = list_contains(&lists[a - 1], node(b), &iter);
+		itl = a;
+	}
 	else if (!strcmp(op, "Iterate")) { r = idx(list_iterate(&lists[a - 1], &iter)); itl = a; na = 1; }
 	else if (!strcmp(op, "IterNext")) { r = idx(list_iterator_next(&iter)); na = 0; }
 	else if (!strcmp(op, "IterInsert")) { list_iterator_insert(&iter, node(a)); na = 1; }
